@@ -70,4 +70,27 @@ theorem tie_retryable_chain :
 theorem tie_annotation_bypass :
     C16.arbAnnBypassRetryable = true ∧ C16.arbAnnBypassNonRetryable = true := by decide
 
+/-! ### the duplicate lookup (filter.go existingPodMigrationJob) and the cycle (descheduler.go deschedulerOnce) -/
+
+/-- existingPodMigrationJob looks a pod up under BOTH job indexes (by pod UID and by namespace/name), and neither
+    lookup is conditional on a UID (no `if pod.UID != "" {…} else {…}`): the second is at most a fall-back behind a
+    found-flag — the two-step shape of the model's `hasJob`, which `existing_lookup_iff` shows to be "UID or name" -/
+theorem tie_existing_lookup :
+    (C16.arbExistingLookups.all (fun e => decide (e.2 ≤ 1)) && C16.arbExistingLookups.any (fun e => e.1 == 1) &&
+      C16.arbExistingLookups.any (fun e => e.1 == 2)) = true := by decide
+
+/-- deschedulerOnce resets the limiter exactly once, outside every loop and before the first profile loop, then runs
+    the Deschedule phase, then the Balance phase: the model's `cycleShape` -/
+theorem tie_cycle_shape : C16.cycleEvents = cycleShape := by decide
+
+/-- `cycle_caps_hold` for the event sequence of the current source -/
+theorem tie_cycle_safe (caps : Caps) (s0 : Ctr) (ph1 ph2 : List (Pod × Bool)) :
+    let r := runCycleEvents (some caps) false C16.cycleEvents s0 ph1 ph2
+    let iss := issuedOf (ph1 ++ ph2) r.2
+    (∀ n, n ≠ 0 → capLe caps.node (issuedBy (·.node) iss n)) ∧ (∀ k, capLe caps.ns (issuedBy (·.ns) iss k)) ∧
+      capLe caps.total iss.length ∧ iss.length = r.1.total := by
+  rw [tie_cycle_shape]
+  have h := cycle_caps_hold caps s0 ph1 ph2
+  exact ⟨fun n hn => (h.1 n hn).2, fun k => (h.2.1 k).2, h.2.2.2, h.2.2.1⟩
+
 end KoordVerif.C16
